@@ -177,7 +177,8 @@ TEXT = {
           "factors with multiplicities (proved: the list arithmetic is a ring homomorphism into Z[X], so an accepted product check is "
           "an identity there: C05_product_sound); every factor square-free and distinct factors coprime by verified Bezout "
           "certificates over Q / F_p (proved: an accepted certificate implies Squarefree / IsCoprime - over Q C05_sqfree_cert_sound, "
-          "C03_coprimeCert_sound, over F_p FPoly.coprimeCert_sound) or, multivariate, by non-vanishing discriminants / resultants in every variable (reference of C04); "
+          "C03_coprimeCert_sound, over F_p FPoly.coprimeCert_sound; the division with remainder over F_p used for the divisibility tests is "
+          "the division of (Z/p)[X], divMod_spec / divMod_zero_iff) or, multivariate, by non-vanishing discriminants / resultants in every variable (reference of C04); "
           "full factorization over F_p compared with the model's complete trial-division factorization (monic factors, "
           "multiplicities); full factorization over Z compared with the irreducible blocks the input was built from, each block "
           "re-certified irreducible on every line (irreducible modulo a prime not dividing the leading coefficient, or Kronecker), a "
